@@ -15,7 +15,7 @@ from symex.api import obligation
 
 ASSUMPTIONS = ["universe: 2 lanelets (1 references sign 10 and light 11), sign, light, intersection 20 with incomings 21/22, "
                "static 30, dynamic 31, phantom 32, environment 33 obstacle; start states: fully populated / partially populated with one generated id / "
-               "lanelet 1 referring to a sign id that is held by an obstacle instead of a sign; colliding newcomers: lanelet 30, sign 1, "
+               "lanelet 1 referring to a sign id that is held by an obstacle instead of a sign / only a lanelet network added as a whole; colliding newcomers: lanelet 30, sign 1, "
                "intersection 40 with incoming 31, sign 40, dynamic obstacle 21, environment obstacle 1, phantom 2, static 10, light 30; a replacement network (lanelet 5, sign 10)",
                "removal operations are applied only to objects currently contained (as the property states), except remove_obstacle, "
                "which the library documents as a warning-only no-op for unknown obstacles",
@@ -115,6 +115,17 @@ def _run(V, k, first=None, start="full"):
         # lanelet 1 refers to a sign id (10) that is not a sign of the network - as in cut-out maps - while a static obstacle
         # holds that id
         names = ("L1", "L2", "T11", "I20", "O31", "O32", "O33", "O10")
+    if start == "batch":
+        # everything entered through a single add_objects(LaneletNetwork): the all-or-nothing marking path
+        names = ()
+        net = LaneletNetwork()
+        for n in ("L1", "L2"):
+            net.add_lanelet(U.objs[n])
+        net.add_traffic_sign(U.objs["S10"], set())
+        net.add_traffic_light(U.objs["T11"], set())
+        sc.add_objects(net)
+        for n in ("L1", "L2", "S10", "T11"):
+            m.inside[n] = set(U.ids[n])
     for n in names:
         sc.add_objects(U.objs[n])
         m.inside[n] = set(U.ids[n])
@@ -212,7 +223,7 @@ def _mk(k, first, tier, start):
     return ob
 
 
-for _start in ("full", "partial", "dangling"):
+for _start in ("full", "partial", "dangling", "batch"):
     for _i in range(len(OPS)):
         _mk(2, _i, "quick", _start)
     for _i in range(len(OPS)):
